@@ -23,6 +23,9 @@ type Merger struct {
 
 	less    func(a, b *sam.Record) bool
 	readers []*reader
+
+	// err is the first read error of an input during a sorted merge.
+	err error
 }
 
 type reader struct {
@@ -126,6 +129,9 @@ func (m *Merger) Header() *sam.Header {
 // The Read behaviour will depend on the underlying Readers.
 func (m *Merger) Read() (rec *sam.Record, err error) {
 	if len(m.readers) == 0 {
+		if m.err != nil {
+			return nil, m.err
+		}
 		return nil, io.EOF
 	}
 	if m.less == nil {
@@ -154,6 +160,8 @@ func (m *Merger) nextBySortOrder() (rec *sam.Record, err error) {
 	reader.head, reader.err = reader.r.Read()
 	if reader.err == nil {
 		m.push(reader)
+	} else if reader.err != io.EOF && m.err == nil {
+		m.err = reader.err
 	}
 	if rec == nil {
 		return m.Read()
